@@ -4,7 +4,8 @@
 TLC: exhaustive check of L1.tla (scripted well-behaved L1 node || l1.Client as written) for the
 invariants StoredFinalisedCanonical / BufferSane / ChainSane and the action properties
 SetHeadExact (every setL1Head leaves exactly the best merged, not removed event at or below the
-reported finalised height), OnlySetHeadWrites, Monotone; plus the same model WITHOUT the timing
+reported finalised height), OnlySetHeadWrites, Monotone, RestartIsNoOp (Restart = a new client on
+the same database); plus the same model WITHOUT the timing
 assumption FinalityAfterNotices as an expected violation (documented observation).
 
 Binding: trace validation. The engine runs the REAL l1.Client against (mode 1) a gated scripted
@@ -110,13 +111,13 @@ def run(ctx):
 
     thorough = not ctx.quick()
     r = ctx.tlc_check(FAMILY, "L1.tla", "L1_quick.cfg", timeout=1500, coverage=thorough,
-                      label="L1: 3 blocks, 3 events, 1 reorg, 1 failure, chunk {1,2,10}")
+                      label="L1: 3 blocks, 3 events, 1 reorg, 1 failure, 1 restart, chunk {1,2,10}")
     if thorough:
         vlib.require_actions_covered(r)
         ctx.tlc_check(FAMILY, "L1.tla", "L1_thorough.cfg", timeout=3000,
-                      label="L1: 4 blocks, 3 events, 1 reorg, 1 failure, chunk {1,2,10}")
+                      label="L1: 4 blocks, 3 events, 1 reorg, 1 failure, 1 restart, chunk {1,2,10}")
         ctx.tlc_check(FAMILY, "L1.tla", "L1_thorough2.cfg", timeout=3000,
-                      label="L1: 3 blocks, 3 events, 2 reorgs, 2 failures, chunk {1,2,10}")
+                      label="L1: 3 blocks, 3 events, 2 reorgs, 2 failures, no restart, chunk {1,2,10}")
     h = ctx.tlc_check(FAMILY, "L1.tla", "L1_lag.cfg", timeout=600, expect_violation=True,
                       label="L1 without the timing assumption FinalityAfterNotices (expected violation)")
     if h["violated"] != "StoredFinalisedCanonical":
@@ -127,10 +128,12 @@ def run(ctx):
     res = ctx.run_engine(binary, "TestL1Record", {"traces": ntr, "seed": ctx.seed, "rounds": 30,
                                                  "trace_out": "l1trace.ndjson"}, timeout=2400)
     st = res.get("stats", {})
-    if st.get("broken_runs"):
-        raise vlib.Broken("%s recorded runs hit a harness timeout / quiescence failure: %s" % (st["broken_runs"], res.get("samples")))
+    # divergences first: a hang / timeout of the real code AFTER a recorded violation reports the violation
     ctx.absorb(res, "l1", "TestL1Record")
-    if not ctx.violations and (not st.get("setheads_checked") or not st.get("reorgs_with_notices") or not st.get("filter_chunks")):
+    if st.get("broken_runs") and not ctx.violations:
+        raise vlib.Broken("%s recorded runs hit a harness timeout / quiescence failure: %s" % (st["broken_runs"], res.get("samples")))
+    if not ctx.violations and (not st.get("setheads_checked") or not st.get("reorgs_with_notices") or not st.get("filter_chunks")
+                               or not st.get("restarts") or not st.get("feed_heads_seen")):
         raise vlib.Broken("recorded runs are vacuous: %s" % st)
     with open(os.path.join(ctx.scratch, "l1trace.ndjson")) as f:
         events = [json.loads(x) for x in f if x.strip()]
@@ -151,10 +154,10 @@ def run(ctx):
     gres = ctx.run_engine(binary, "TestL1Record", {"traces": ngeth, "seed": ctx.seed, "rounds": 30, "geth": True,
                                                    "trace_out": "l1geth.ndjson"}, timeout=2400)
     gst = gres.get("stats", {})
-    if gst.get("broken_runs"):
-        raise vlib.Broken("%s geth-mode runs hit a harness timeout / quiescence failure: %s" % (gst["broken_runs"], gres.get("samples")))
     before = len(ctx.violations)
     ctx.absorb(gres, "l1", "TestL1Record")
+    if gst.get("broken_runs") and not ctx.violations:
+        raise vlib.Broken("%s geth-mode runs hit a harness timeout / quiescence failure: %s" % (gst["broken_runs"], gres.get("samples")))
     for k, v in gst.items():  # absorb() summed them into the scripted-mode counters: keep them apart
         if isinstance(v, (int, float)):
             ctx.coverage[k] = ctx.coverage.get(k, 0) - v
